@@ -952,4 +952,156 @@ theorem bin_width_constructed (f p : List Rat) (fs : Rat) (n npw : Nat) (h0 : 0 
 
 example : (Spec.initial [] [] 10 26 8).binWidth = 5 / 4 := by decide +kernel
 
+/-! ## `identify_peaks` → `_exclude_range` -/
+
+theorem forall₂_mem_left {β γ} {R : β → γ → Prop} : ∀ {l₁ : List β} {l₂ : List γ}, List.Forall₂ R l₁ l₂ →
+    ∀ a ∈ l₁, ∃ b ∈ l₂, R a b := by
+  intro l₁ l₂ h
+  induction h with
+  | nil => intro a ha; cases ha
+  | cons hab _ ih =>
+    intro a ha
+    rcases List.mem_cons.mp ha with rfl | ha
+    · exact ⟨_, List.mem_cons_self, hab⟩
+    · obtain ⟨b, hb, hr⟩ := ih a ha
+      exact ⟨b, List.mem_cons_of_mem _ hb, hr⟩
+
+theorem forall₂_mem_right {β γ} {R : β → γ → Prop} : ∀ {l₁ : List β} {l₂ : List γ}, List.Forall₂ R l₁ l₂ →
+    ∀ b ∈ l₂, ∃ a ∈ l₁, R a b := by
+  intro l₁ l₂ h
+  induction h with
+  | nil => intro a ha; cases ha
+  | cons hab _ ih =>
+    intro a ha
+    rcases List.mem_cons.mp ha with rfl | ha
+    · exact ⟨_, List.mem_cons_self, hab⟩
+    · obtain ⟨b, hb, hr⟩ := ih a ha
+      exact ⟨b, List.mem_cons_of_mem _ hb, hr⟩
+
+/-- **peaks_then_exclude.**  Handing the ranges `identify_peaks` returns to `_exclude_range` (what they are for) removes
+    every bin above the cut-off, on every non-decreasing frequency axis with `f₁ > f₀`. -/
+theorem peaks_then_exclude (freq flat : List Rat) (baseline cutoff : Rat) (hbc : baseline < cutoff)
+    (hlen : freq.length = flat.length) (hmono : freq.Pairwise (· ≤ ·))
+    (R : List (Nat × Nat)) (hR : identifyPeaksIdx flat baseline cutoff = some R)
+    (out : List (Rat × Rat)) (hout : rangesToFreq freq R = some out)
+    (hdf : ∀ f0 f1, freq[0]? = some f0 → freq[1]? = some f1 → f0 < f1)
+    (i : Nat) (hi : i < flat.length) (hpeak : cutoff < flat[i]) :
+    notExcluded out (freq[i]'(by omega)) = false := by
+  obtain ⟨r, hr, hr1, hr2⟩ := peaks_cover flat baseline cutoff hbc R hR i hi hpeak
+  have hne : R ≠ [] := List.ne_nil_of_mem hr
+  obtain ⟨f0, f1, h0, h1, hall⟩ := peaks_frequency_edges freq R out hout hne
+  obtain ⟨o, ho, a, b, ha, hb, rfl⟩ := forall₂_mem_left hall r hr
+  have hd := hdf f0 f1 h0 h1
+  obtain ⟨hl1, ea⟩ := List.getElem?_eq_some_iff.mp ha
+  obtain ⟨hl2, eb⟩ := List.getElem?_eq_some_iff.mp hb
+  have hia : a ≤ freq[i]'(by omega) := by
+    rw [← ea]
+    rcases Nat.eq_or_lt_of_le hr1 with e | e
+    · simp [e]
+    · exact List.pairwise_iff_getElem.mp hmono _ _ hl1 (by omega) e
+  have hib : freq[i]'(by omega) ≤ b := by
+    rw [← eb]
+    rcases Nat.eq_or_lt_of_le hr2 with e | e
+    · simp [e]
+    · exact List.pairwise_iff_getElem.mp hmono _ _ (by omega) hl2 e
+  cases hne' : notExcluded out (freq[i]'(by omega)) with
+  | false => rfl
+  | true =>
+    have := (notExcluded_iff out _).mp hne' _ ho
+    exact absurd ⟨hia, by linarith⟩ this
+
+/-- **peaks_then_exclude_only.**  On an axis whose spacing is everywhere at least `Δf = f₁ − f₀ > 0` (a uniform axis)
+    the exclusion removes ONLY bins at or above the baseline. -/
+theorem peaks_then_exclude_only (freq flat : List Rat) (baseline cutoff : Rat) (hbc : baseline < cutoff)
+    (hlen : freq.length = flat.length)
+    (R : List (Nat × Nat)) (hR : identifyPeaksIdx flat baseline cutoff = some R)
+    (out : List (Rat × Rat)) (hout : rangesToFreq freq R = some out) (hne : R ≠ [])
+    (df : Rat) (hdf : ∀ f0 f1, freq[0]? = some f0 → freq[1]? = some f1 → f1 - f0 = df) (hpos : 0 < df)
+    (hsp : ∀ j (h : j + 1 < freq.length), freq[j] + df ≤ freq[j + 1])
+    (i : Nat) (hi : i < flat.length) (hex : notExcluded out (freq[i]'(by omega)) = false) :
+    baseline ≤ flat[i] := by
+  -- strictly increasing, with steps of at least df
+  have hstep : ∀ (d j : Nat) (h : j + d < freq.length), freq[j]'(by omega) + (d : Rat) * df ≤ freq[j + d] := by
+    intro d
+    induction d with
+    | zero => intro j h; simp
+    | succ d ih =>
+      intro j h
+      have h1 := ih j (by omega)
+      have h2 := hsp (j + d) (by omega)
+      have e : freq[j + (d + 1)] = freq[j + d + 1] := by congr 1
+      rw [e]; push_cast; linarith
+  obtain ⟨f0, f1, h0, h1, hall⟩ := peaks_frequency_edges freq R out hout hne
+  have hd := hdf f0 f1 h0 h1
+  have hnot : ¬ ∀ o ∈ out, ¬ (o.1 ≤ freq[i]'(by omega) ∧ freq[i]'(by omega) < o.2) := by
+    intro h
+    have := (notExcluded_iff out _).mpr h
+    rw [this] at hex; cases hex
+  have : ∃ o ∈ out, o.1 ≤ freq[i]'(by omega) ∧ freq[i]'(by omega) < o.2 := by
+    by_contra hc
+    exact hnot (fun o ho hh => hc ⟨o, ho, hh⟩)
+  obtain ⟨o, ho, ho1, ho2⟩ := this
+  obtain ⟨r, hr, a, b, ha, hb, rfl⟩ := forall₂_mem_right hall o ho
+  obtain ⟨hl1, ea⟩ := List.getElem?_eq_some_iff.mp ha
+  obtain ⟨hl2, eb⟩ := List.getElem?_eq_some_iff.mp hb
+  simp only at ho1 ho2
+  rw [hd] at ho2
+  have hr1 : r.1 ≤ i := by
+    by_contra hlt
+    have hlt : i < r.1 := by omega
+    obtain ⟨d, hd'⟩ : ∃ d, r.1 = i + (d + 1) := ⟨r.1 - i - 1, by omega⟩
+    have := hstep (d + 1) i (by omega)
+    have e : freq[i + (d + 1)]'(by omega) = a := by rw [← ea]; congr 1; omega
+    rw [e] at this
+    have : (0 : Rat) < ((d + 1 : Nat) : Rat) * df := by positivity
+    linarith
+  have hr2 : i ≤ r.2 := by
+    by_contra hlt
+    obtain ⟨d, hd'⟩ : ∃ d, i = r.2 + (d + 1) := ⟨i - r.2 - 1, by omega⟩
+    have := hstep (d + 1) r.2 (by omega)
+    have e : freq[r.2 + (d + 1)]'(by omega) = freq[i]'(by omega) := by congr 1; omega
+    rw [e, eb] at this
+    have : df ≤ ((d + 1 : Nat) : Rat) * df := by
+      push_cast; nlinarith
+    linarith
+  obtain ⟨-, -, h3, -⟩ := peaks_above_baseline flat baseline cutoff hbc R hR r hr
+  obtain ⟨_, hb'⟩ := h3 i hr1 hr2
+  exact hb'
+
+/-- non-vacuity of `peaks_then_exclude` / `peaks_then_exclude_only`: a uniform half-integer axis, one peak -/
+example : identifyPeaksIdx ([0, 2, 6, 2, 0] : List Rat) 1 5 = some [(1, 3)] ∧
+    rangesToFreq [0, 1/2, 1, 3/2, 2] [(1, 3)] = some [(1/2, 2)] ∧
+    ([0, 1/2, 1, 3/2, 2] : List Rat).Pairwise (· ≤ ·) ∧
+    notExcluded [((1/2 : Rat), (2 : Rat))] 1 = false := by
+  refine ⟨by decide +kernel, by decide +kernel, by decide +kernel, by decide +kernel⟩
+
+/-- the spacing hypothesis of `peaks_then_exclude_only` is necessary (kernel-checked): on the axis `[0, 2, 3, 4]`
+    (`Δf = f₁ − f₀ = 2`, later spacing 1) the peak at bin 1 is reported as `[2, 4)`, which also removes bin 2 (below the
+    baseline) -/
+example : (mkSpec [0, 2, 3, 4] [0, 9, 0, 0] 1).identifyPeaks [0, 9, 0, 0] 1 5 = .ok ([(1, 1)], [(2, 4)]) ∧
+    ((mkSpec [0, 2, 3, 4] [0, 9, 0, 0] 1).excludeRange [(2, 4)]).freq = [0, 4] := by
+  refine ⟨by decide +kernel, by decide +kernel⟩
+
+/-- FINDING (kernel-checked on the code's own doubles): the frequency axis `rfftfreq(12, 1/7)` as exact rationals of its
+    doubles violates the spacing hypothesis at its end — `f₅ + (f₁ − f₀) > f₆` (in exact arithmetic, and also after
+    rounding: `2.916666666666667 + 0.5833333333333334 = 3.5000000000000004 > 3.5`) — so the range reported for a peak
+    at bin 5 alone contains the Nyquist bin 6, which is below the baseline, and excluding the reported range removes
+    it as well. -/
+example :
+    let freq : List Rat := [0, 5254199565265579/9007199254740992, 5254199565265579/4503599627370496, 7/4,
+      5254199565265579/2251799813685248, 3283874728290987/1125899906842624, 7/2]
+    let flat : List Rat := [0, 1/2, 1/2, 1/2, 1/2, 30, 1/2]
+    ∃ hi, (mkSpec freq flat 1).identifyPeaks flat 1 20 = .ok ([(5, 5)], [(3283874728290987/1125899906842624, hi)]) ∧
+      7/2 < hi ∧
+      ((mkSpec freq flat 1).excludeRange [(3283874728290987/1125899906842624, hi)]).freq = freq.take 5 := by
+  refine ⟨3283874728290987/1125899906842624 + 5254199565265579/9007199254740992, by decide +kernel, by decide +kernel,
+    by decide +kernel⟩
+
+/-- the model's `excludePeaks` is `identify_peaks` followed by `_exclude_range` of the reported ranges (what the two
+    theorems above are about) -/
+theorem excludePeaks_ok (s : Spec) (flat : List Rat) (baseline cutoff : Rat) (rs : List (Nat × Nat)) (fr : List (Rat × Rat))
+    (h : s.identifyPeaks flat baseline cutoff = .ok (rs, fr)) :
+    s.excludePeaks flat baseline cutoff = .ok (s.excludeRange fr) := by
+  unfold Spec.excludePeaks; rw [h]
+
 end Verif.C10
